@@ -31,7 +31,7 @@ FLAT = {
     "Box<Inner>": "pub x: i32, pub y: Option<String>",
 }
 AS_TYPES = ["i32", "Option<i32>", "Vec<Inner>", "Inner", "Gen<i32>", "(i32, String)", "BTreeMap<String, Inner>", "DataE", "TagE", "UnitE",
-            "Box<Inner>", "[i32; 2]", "Option<Vec<Gen<Inner>>>", "std::ops::Range<i32>"]
+            "Box<Inner>", "[i32; 2]", "Option<Vec<Gen<Inner>>>", "std::ops::Range<i32>", "[Inner; 64]", "Vec<[i32; 65]>"]
 
 
 PRELUDE = """pub struct Opaque;
@@ -86,7 +86,7 @@ def pres_units():
             ("untagged variant payload, inlined", '#[ts(untagged)] pub enum @ { A(#[ts(as = "%s", inline)] Inner), B }' % t, "#[ts(untagged)] pub enum @ { A(#[ts(inline)] %s), B }" % t),
         ):
             pairs.append(("as", "%s / %s" % (pos, t), unit(a), unit(b)))
-    for t in ["Inner", "Gen<i32>", "DataE", "TagE", "(i32, String)", "Vec<Inner>", "std::ops::Range<Inner>", "(Inner, Option<Gen<i32>>)"]:
+    for t in ["Inner", "Gen<i32>", "DataE", "TagE", "(i32, String)", "Vec<Inner>", "std::ops::Range<Inner>", "(Inner, Option<Gen<i32>>)", "[Inner; 64]", "[i32; 63]", "[i32; 65]"]:
         # container-level `as`: the binding the item would have if it were T: its declaration body is T's inline()
         pairs.append(("as-container", t, unit('#[ts(as = "%s")] pub struct @ { pub whatever: Opaque }' % t), unit("pub struct @(#[ts(inline)] pub %s);" % t)))
     for t, fields in FLAT.items():
